@@ -84,6 +84,39 @@ Theorem c06_sharing_limit : forall o ops,
 Proof. exact hist_limit. Qed.
 Print Assumptions c06_sharing_limit.
 
+(* ---- CPUs given back to the pod being scheduled (preferredCPUs of a matched reservation,
+   preemptibleCPUs of a victim) ---- *)
+(* getAvailableCPUs offers a CPU only if it is in the topology, not reserved, and the reference
+   count remaining after the give-backs is below the sharing limit *)
+Theorem c06_available_sound : forall T maxref rsv cs prefs i,
+  1 <= maxref -> cs_wf cs -> (forall l, In l prefs -> NoDup l) ->
+  In i (fst (available T maxref rsv cs prefs)) ->
+  In i (map cid T) /\ ~ In i rsv /\ Z.max 0 (ref_in cs i - giveback_count prefs i) < maxref.
+Proof. exact available_sound. Qed.
+Print Assumptions c06_available_sound.
+
+(* every history of Allocate (plain, out of a reservation's remaining CPUs, and/or preempting a
+   victim whose CPUs are given back once) and Release: no CPU has more owners than the sharing
+   limit, an owner being a live holder that is not nested in a live reservation holding the
+   same CPU; and the ledger stays exact *)
+Theorem c06_sharing_limit_giveback : forall o ops,
+  wf_opts o -> gvalid o l_init [] ops ->
+  fst (grun o l_init [] ops) = run o ops
+  /\ within_limit_g (o_maxref o) (l_pods (run o ops)) (snd (grun o l_init [] ops))
+  /\ ledger_exact (run o ops).
+Proof. exact ghist_limit. Qed.
+Print Assumptions c06_sharing_limit_giveback.
+
+(* the give-back sets the harness / extracted model derive from the live allocations
+   (Spec.concretize) always satisfy the validity condition of the theorem above *)
+Theorem c06_concretize_valid : forall st es rq0 host0 victim0,
+  linv st ->
+  match r_hint rq0 with Some h => NoDup h | None => True end ->
+  let '(rq, host, victim) := concretize (l_pods st) es rq0 host0 victim0 in
+  op_valid_g st es (OAllocR rq host victim).
+Proof. exact concretize_valid. Qed.
+Print Assumptions c06_concretize_valid.
+
 Theorem c06_numa_capacity : forall o ops,
   wf_opts o -> nres_nonneg (o_cap o) -> Forall op_sched ops -> within_capacity o (run o ops).
 Proof. exact hist_capacity. Qed.
